@@ -397,7 +397,7 @@ func (c14) slowPeer(sc core.Scenario, r *core.R) {
 		smallMs = small.T1.Sub(start).Milliseconds()
 	}
 	r.Obs("second_response_waited_ms", smallMs)
-	r.Sample(map[string]interface{}{"scenario": "second response queued behind a writer busy with a large response to a slow reader", "mb": sc.I("mb"), "large_response_took_ms": waited.Milliseconds(), "second_response_waited_ms": smallMs, "dbg": core.Log.TailFiltered(60, "px.frame")})
+	r.Sample(map[string]interface{}{"scenario": "second response queued behind a writer busy with a large response to a slow reader", "mb": sc.I("mb"), "large_response_took_ms": waited.Milliseconds(), "second_response_waited_ms": smallMs})
 }
 
 // closeBusy: the client is closed while one of its own writers (the response of a client-side handler
